@@ -1318,13 +1318,18 @@ class ElectrumX(SessionBase):
         dictionary with a merkle proof.'''
         height = non_negative_integer(height)
         cp_height = non_negative_integer(cp_height)
-        raw_header_hex = (await self.session_mgr.raw_header(height)).hex()
         self.bump_cost(1.25 - (cp_height == 0))
-        if cp_height == 0:
-            return raw_header_hex
-        result = {'header': raw_header_hex}
-        result.update(await self._merkle_proof(cp_height, height))
-        return result
+        while True:
+            truncations = self.db.header_mc.truncations
+            raw_header_hex = (await self.session_mgr.raw_header(height)).hex()
+            if cp_height == 0:
+                return raw_header_hex
+            result = {'header': raw_header_hex}
+            result.update(await self._merkle_proof(cp_height, height))
+            # If blocks were undone meanwhile the header and the proof may be from different
+            # chains; do it again
+            if truncations == self.db.header_mc.truncations:
+                return result
 
     async def block_headers(self, start_height, count, cp_height=0):
         '''Return count concatenated block headers as hex for the main chain;
@@ -1337,14 +1342,21 @@ class ElectrumX(SessionBase):
         count = non_negative_integer(count)
         cp_height = non_negative_integer(cp_height)
         max_size = self.MAX_CHUNK_SIZE
-        count = min(count, max_size)
-        cost = count / 50
-        headers, count = await self.db.read_headers(start_height, count)
-        result = {'hex': headers.hex(), 'count': count, 'max': max_size}
-        if count and cp_height:
-            cost += 1.0
+        requested = min(count, max_size)
+        cost = requested / 50
+        while True:
+            truncations = self.db.header_mc.truncations
+            headers, count = await self.db.read_headers(start_height, requested)
+            result = {'hex': headers.hex(), 'count': count, 'max': max_size}
+            if not (count and cp_height):
+                break
             last_height = start_height + count - 1
             result.update(await self._merkle_proof(cp_height, last_height))
+            # If blocks were undone meanwhile the headers and the proof may be from different
+            # chains; do it again
+            if truncations == self.db.header_mc.truncations:
+                cost += 1.0
+                break
         self.bump_cost(cost)
         return result
 
